@@ -16,34 +16,29 @@ CLAIMED = {
              "predecessor is in the ghost set 'completed', which is only extended when fn returned normally (" + _ENGINE + "); prepare_nodes / predecessor_count "
              "establish the invariant (distinct predecessors); the queues neither lose nor duplicate items; process (run_physical) ties 'completed' to the call function having returned.",
         note="Assumes the GIL memory model (T2), queue.Queue / Lock / Thread contracts (T3, T4), networkx adjacency views (T5) and the ownership-transfer rule through the queue (T14, paper argument). "
-             "Reachability preservation by literal pruning (L-BYPASS) is a stated lemma, validated only by the bounded native probe. greedy priorities are not under contract (T12).",
+             "Reachability preservation by literal pruning (L-BYPASS) is proved in Lean (thorough tier) and validated by the bounded graph enumeration; greedy priorities are not under contract (T12: only used through dict.get(node, -1)).",
     ),
     "C02": dict(
-        technique="contract verification of BoundCall.run / bound-call construction / process / run composition / Plan._call / unpack / edge keys; bounded native enumeration for _gather and get_argument_nodes",
-        text="Proved: Plan._call adds exactly the positional / keyword edges with their indices (symbolic graph), bound calls take exactly the slots of get_argument_nodes in order and under their names, "
-             "BoundCall.run passes slot values read at call time in order, literals are their own slot (identity), run returns the output slot; schedule independence through C01/C04. "
-             "BOUNDED (not counted as proved): the substitution semantics of _gather and get_argument_nodes over all argument trees of depth <= 2.",
-        note="_gather.recurse and get_argument_nodes are decided only by the bounded stand-in (contracts/plumbing.py) and the native probe; validation.assert_can_bind and greedy are not under contract.",
+        technique='contract verification (z3) of Plan._call with symbolic argument counts, Plan._gather + nested recurse by structural induction, gather_* builtins, get_argument_nodes with loop invariants over a symbolic in-edge sequence, BoundCall.run / bound-call construction / process / run composition / unpack / edge keys; L-COUNT in Lean',
+        text='Proved, unbounded: recurse(root) returns the very object when no node is inside and otherwise a node whose value is root with every node replaced by its value, same shape, exact built-in types only (structural induction, recursive calls cut by the hypothesis); _gather wraps a non-node in a literal holding the very object; Plan._call adds exactly the edges (gather(arg_i), c, Pos i), (gather(kwarg_j), c, Kw(name_j, j)) for ANY number of arguments, which is WF_args(c); get_argument_nodes returns args[i] = the predecessor on Pos(i) and the keyword pairs in index order for every in-edge sequence satisfying WF_args (two loop invariants, every list index proved in range); bound calls take exactly those slots, BoundCall.run passes slot values read at call time, literals are their own slot, run returns the output slot; schedule independence through C01/C04.',
+        note='Assumed: argument structures are finite and acyclic; dict(pairs) keeps insertion order; the denotation val(call) = fn(values on its argument edges) is the composition of BoundCall.run, get_argument_nodes and C01 (stated, each part proved separately); WF_args is established by Plan._call and carried by the rewrite contract (same keys) - its preservation through pruning is by the prune contracts (whole nodes removed only outside the ancestors). L-COUNT (a bijection between the positional edges and [0,P) gives exactly P of them) is proved in Lean (thorough tier). A bounded round trip over argument trees of depth <= 2 incl. multi-step construction stays as a safety net and as native replay. validation.assert_can_bind and greedy are not under contract.',
     ),
     "C03": dict(
-        technique="layer 1: contracts on the real stale check, rewrite, pruning, run composition (z3); layer 2 (history induction): lemma statements + bounded native probe over generated histories",
-        text="Proved per function: process computes the declarative Stale / M spec functions for every node; _add_value_store performs exactly the specified whole-graph rewrite; "
-             "plan_with_value_stores requires exactly the write nodes of the stale entries; prune_plan keeps the ancestors; run composes them. The induction over histories "
-             "(invariant 'looks fresh => from-scratch value') is NOT mechanised: it is covered by the bounded probe (histories <= 6 steps over plans <= 6 nodes) only.",
-        note="Layer 2 is bounded, never counted as proved. Dependent sources are outside the store view. Deterministic call functions and well-behaved stores are assumed (statement).",
+        technique='layer 1: contracts on the real stale check, rewrite, pruning, run composition (z3); layer 2: SMT lemmas over those contracts (contracts/history.py: nearest-stored-ancestor form of Stale, inductive invariant J over every history step, fresh => from-scratch value, successful-run summary) by rank-induction steps and the invariant rule; bounded native probe over generated histories as validation',
+        text="Proved per function: process computes the declarative Stale / M spec for every node; _add_value_store performs exactly the specified whole-graph rewrite; plan_with_value_stores requires exactly the write nodes of the stale entries; prune_plan keeps the ancestors; run composes them. Proved as lemmas over these contracts, for graphs of any size: the invariant J ('a stored value is consistent with the current contents of its nearest stored ancestors whenever the modified times look consistent') holds initially and is preserved by every store write that takes effect (in any order, at any cut), source update, deletion and fresh_time change; J and not Stale(n) imply that n's stored value is the from-scratch value; after a successful run every stored value was computed from the final contents of its nearest stored ancestors and nothing is out of date.",
+        note='The lemmas are first-order VCs with the induction hypothesis assumed (rank induction over the DAG, invariant rule over the history): the two meta-steps are not mechanised. Hypotheses taken from other contracts and named in the evidence: H-ATOMIC (C09/C04/C01), H-TIME and H-DET (statement of C03), C11 atomic store writes. Dependent sources written by a side effect are outside the store view (scope limit). The bounded probe (histories <= 6 steps over plans <= 8 nodes) validates the whole argument natively and is never counted as proved.',
     ),
     "C04": dict(
         technique="same engine invariant as C01 (token exclusivity, put only of not-yet-enqueued nodes), queue contracts, all_ancestors loop invariant, prune_plan composition",
         text="Proved: fn(node) is called at most once per token and a node is put only if it is not already enqueued (G3/G4 with the cardinality lemmas), for all interleavings; "
              "all_ancestors returns a predecessor-closed set inside Anc(S) that contains S; prune_plan removes exactly the complement; run passes required_nodes=[] without a registry.",
-        note="'Anc(S) is contained in every predecessor-closed superset of S' (L-REACH) and the completion lemma (every enabled node is eventually processed) are stated lemmas; the second sentence of the property "
+        note="'Anc(S) is contained in every predecessor-closed superset of S' (L-REACH, proved in Lean) and the completion lemma (every enabled node is eventually processed) are stated lemmas; the second sentence of the property "
              "additionally rests on the bounded probe for completion. Termination of all_ancestors is not proved.",
     ),
     "C05": dict(
-        technique="contract verification of the stale check against the declarative out-of-date spec (symbolic times, z3), of plan_with_value_stores (write set) and of _add_value_store (no write node for fresh entries)",
-        text="Proved: stale_lookup[n] == Stale(n) with the strict comparison and the pure-source clause taken from the statement; required == {write(n) | n registered and stale}; "
-             "a fresh stored node gets no write node and its argument consumers are re-pointed to the read node; a bounded stand-in (<= 3 predecessors) keeps deciding the per-node spec when the code is restructured.",
-        note="'each exactly once' and 'nothing else runs' use C04 and L-NEEDED (stated lemma, bounded probe). Idempotence of a repeated run is checked by the bounded probe only.",
+        technique='contract verification of the stale check against the declarative out-of-date spec (symbolic times, z3), of plan_with_value_stores (write set) and of _add_value_store (no write node for fresh entries); lemma H4 (after a successful run nothing is out of date) over the contracts',
+        text='Proved: stale_lookup[n] == Stale(n) with the strict comparison and the pure-source clause taken from the statement; required == {write(n) | n registered and stale}; a fresh stored node gets no write node and its argument consumers are re-pointed to the read node; lemma (z3, any graph size): after a successful run no stored node is out of date, so a repeated run rewrites nothing; a bounded stand-in (<= 3 predecessors) keeps deciding the per-node spec when the code is restructured.',
+        note="'each exactly once' and 'nothing else runs' use C04 and L-NEEDED (stated lemma, bounded probe). H4 assumes fresh_time is not in the future and pure sources (dependent sources: scope limit). The reads-at-most-once clause is checked by the bounded probe only.",
     ),
     "C06": dict(
         technique="engine invariant (completed and failed disjoint, put requires all predecessors completed), failure-lock invariant G5, concrete identity checks of NodeError / CallError objects on every path",
@@ -52,23 +47,19 @@ CLAIMED = {
         note="'first failure with one worker' follows from G5 with worker_count = 1 (not a separate obligation). A registered Literal whose modified-time query fails yields AttributeError instead of CallError: known finding F4 (reported under C19).",
     ),
     "C07": dict(
-        technique="contracts on process_items (task_done exactly once per get), worker_pool (all started threads joined on every exit), coordinator (DONE count, cleanup on exceptional join), process_node (nothing escapes)",
-        text="Safety premises proved for all paths: every get is followed by exactly one task_done; exactly worker_count DONEs are put on every exit of queue.join(); every started worker is joined on every exit of the pool; "
-             "assert_acyclic is the first effect of the engine and nothing happens after it raises. NOT proved: liveness (run returns in finite time) needs scheduler fairness and terminating call functions; "
-             "the Kahn loop of topological_sort is not under contract yet (cycle detection itself is trusted).",
-        note="liveness: not proved (paper argument in DESIGN.md); topological_sort: assumed correct, exercised only by the bounded probes.",
+        technique="contracts on the Kahn loop of topological_sort / assert_acyclic (ghost rank: returns => acyclic, raises => a cycle exists; L-RANK, L-CYCLE in Lean), process_items (task_done exactly once per get), worker_pool (all started threads joined on every exit), coordinator (DONE count, cleanup on exceptional join), process_node (nothing escapes), run composition (every real run reaches run_physical / the stale check with their contracts' parameters)",
+        text='Safety premises proved for all paths: assert_acyclic is the first effect of the engine, returns only for acyclic graphs and raises only when a cycle exists; every get is followed by exactly one task_done; exactly worker_count DONEs are put on every exit of queue.join(); every started worker is joined on every exit of the pool; run passes no switch that could skip the check. NOT proved: liveness (run returns in finite time) needs scheduler fairness and terminating call functions.',
+        note='liveness: not proved (paper argument in DESIGN.md). A bounded stand-in runs the real uberjob.run on cyclic plans (cycles <= 3 nodes x registry none/empty/non-empty x workers x schedulers x dry/real) and is the native replay for the second clause. greedy.get_priority_mapping is assumed to terminate without raising (T12); its result is only used through dict.get(node, -1), which is total.',
     ),
     "C08": dict(
-        technique="the same per-function contracts as C03/C05/C09 plus the C11 file-level proof; the cut-point argument is a stated lemma validated by the bounded probe",
-        text="Proved pieces: the invariant GI holds after every atomic step (so the set of effected operations is predecessor-closed at every cut), nothing downstream of a failure takes effect (C06), "
-             "rebuilt values are written before their consumers start (C09), file stores publish atomically at every fault point (C11). The lemma 'a stored value that looks fresh after a cut equals its from-scratch value' is NOT mechanised.",
-        note="history-level lemma: bounded probe only (failed runs inside generated histories). Process death between store operations is the same argument; os._exit is modelled as 'no further operation takes effect'.",
+        technique='the per-function contracts of C03/C05/C09 plus the C11 file-level proof; the cut-point argument as SMT lemmas over those contracts (contracts/history.py: J is inductive under every write that takes effect, J and not Stale => from-scratch value, frame of a write)',
+        text="Proved pieces: the invariant GI holds after every atomic step (so the set of effected operations is predecessor-closed at every cut), nothing downstream of a failure takes effect (C06), rebuilt values are written before their consumers start (C09), file stores publish atomically at every fault point (C11). Proved as lemmas (z3, any graph size): J is preserved by every single store write in any order, hence holds after every cut; J and 'treated as up to date' imply the from-scratch value; a write changes the staleness of no node it does not reach, and a value completely written while its nearest stored ancestors were up to date is itself treated as up to date.",
+        note="Rank induction and the invariant rule are the unmechanised meta-steps; hypotheses H-ATOMIC / H-TIME / H-DET as under C03. Process death between store operations is a cut with no handler; os._exit is modelled as 'no further operation takes effect'. Bounded probe (failed runs inside generated histories) as validation.",
     ),
     "C09": dict(
-        technique="whole-graph postcondition of the real _add_value_store on a symbolic MultiDiGraph (z3, finite-scope refutation), output redirection in plan_with_value_stores and run",
-        text="Proved for every node kind / source flag / staleness: E' is exactly the specified rewrite - write -> read (Dep), argument consumers re-pointed to the read node with the same key, plain dependents to the write node, "
-             "Barrier inheriting a stale source's predecessors - and nothing else changes; the output is redirected to the read node; ordering then follows from C01.",
-        note="Plan.lit / Plan._call are stubs carrying contracts that are proved separately (contracts/plumbing.py). L-BYPASS for _prune_literal_if_trivial is a stated lemma.",
+        technique="whole-graph postcondition of the real _add_value_store on a symbolic MultiDiGraph (z3, finite-scope refutation), output redirection in plan_with_value_stores and run; stale propagation through C05's contracts; L-BYPASS in Lean",
+        text="Proved for every node kind / source flag / staleness: E' is exactly the specified rewrite - write -> read (Dep), argument consumers re-pointed to the read node with the same key, plain dependents to the write node, Barrier inheriting a stale source's predecessors - and nothing else changes; the output is redirected to the read node; ordering then follows from C01; 'every stored value downstream is rebuilt in the same run' is the 'some predecessor is stale' disjunct of the Stale spec (C05).",
+        note='Plan.lit / Plan._call are stubs carrying contracts that are proved separately (contracts/plumbing.py, contracts/gather.py). L-BYPASS (by-passing a literal preserves reachability) is proved in Lean (thorough tier).',
     ),
     "C10": dict(
         technique="loop invariant on the real retry wrapper; ghost in-flight set and failure-lock invariant for max_errors; worker_pool / coordinator contracts for max_workers; run composition for the plumbing",
@@ -84,17 +75,14 @@ CLAIMED = {
         note="Assumes POSIX rename atomicity and the open/write/close/remove/serialiser contracts stated in contracts/filestore.py (T8). os._exit / SIGKILL are modelled as 'no further operation takes effect'.",
     ),
     "C12": dict(
-        technique="contract verification of read/write plumbing on a ghost file system (same path, mode, encoding object, newline handling, serialiser pair), MountedStore call sequence, get_modified_time against the file's mtime",
-        text="Proved: the arguments the real write and read pass to open() and to the (de)serialiser compose to the identity on each store's domain, given the stdlib contracts; 'contains a carriage "
-             "return' is symbolic so every str is covered; get_modified_time is None iff the path is missing/inaccessible and denotes the file's mtime; a write strictly increases it on the ghost clock.",
-        note="The stdlib pairs (codecs, json, pickle, text-layer newline translation on POSIX) are assumed inverse as documented (T8), validated only by the bounded native run used as replay. "
-             "'never decreases' is relative to a monotone system clock.",
+        technique="contract verification of read/write plumbing on a ghost file system (same path, mode, encoding object, newline handling, serialiser pair), MountedStore (order of operations, local path private to each operation), get_modified_time against the file's mtime (symbolic, incl. 0)",
+        text="Proved: the arguments the real write and read pass to open() and to the (de)serialiser compose to the identity on each store's domain, given the stdlib contracts; 'contains a carriage return' is symbolic so every str is covered; get_modified_time is None iff the path is missing/inaccessible (for every mtime value) and denotes the file's mtime; a write strictly increases it on the ghost clock; a MountedStore operation stages in a temp name created during that very operation, never shared with another operation.",
+        note="The stdlib pairs (codecs, json, pickle, text-layer newline translation on POSIX) are assumed inverse as documented (T8), validated only by the bounded native run used as replay. 'never decreases' is relative to a monotone system clock.",
     ),
     "C13": dict(
-        technique="frame obligations: run composition (the caller's plan is only ever passed to get_mutable_plan(inplace=False)), copies, inplace flags of every transformation, node attributes untouched by the rewrite",
-        text="Proved on every path of run (registry / none / empty, dry run, failures in either phase, transform_physical): nothing but the copy is handed to any transformation; the registry only reaches plan_with_value_stores; "
-             "Plan.copy / Registry.copy share no mutable container; _add_value_store leaves the node's own attributes alone and restores plan._scope; prune_* work on a copy unless inplace.",
-        note="render (_rendering.py) is not under contract (nxv-dependent); it is covered by nothing but the repository's tests. networkx copy independence is T5.",
+        technique="frame obligations: run composition (the caller's plan is only ever passed to get_mutable_plan(inplace=False)), copies, inplace flags of every transformation, node attributes untouched by the rewrite; render on a read-only graph proxy",
+        text="Proved on every path of run (registry / none / empty, dry run, failures in either phase, transform_physical): nothing but the copy is handed to any transformation (gather included); the registry only reaches plan_with_value_stores; Plan.copy / Registry.copy share no mutable container; _add_value_store leaves the node's own attributes alone and restores plan._scope; prune_* work on a copy unless inplace; render mutates only its own copy for every predicate / level combination (concrete-parametric).",
+        note='nxv.render is not under contract. networkx copy independence is T5.',
     ),
     "C14": dict(
         technique="path obligations on run (dry run returns exactly the pair the real run would execute, calls nothing afterwards), stale check never reads/writes a store, self-containedness from the rewrite postcondition",
@@ -128,9 +116,8 @@ CLAIMED = {
         note="Known finding F4: CallError cannot be built for a registered Literal (AttributeError). T11: a plain def adds exactly one frame.",
     ),
     "C20": dict(
-        technique="contracts on State (symbolic counts, real-valued time), sorted_scope_items on generic opaque scope values, cut update-thread loop with ghost version; bounded enumeration of renders",
-        text="Proved: legal notifications keep State well formed and raise nothing; the weighted elapsed times grow by exactly the elapsed time while something runs; sorting is total for merely hashable+equatable scope values; "
-             "the update thread's last rendering reflects the final state. BOUNDED: console / HTML _render on all small states; the IPython observer is not covered.",
-        note="Floating point treated as real arithmetic (T15). IPython widget layer: not under contract.",
+        technique="contracts on State (symbolic counts, real-valued ghost clock), sorted_scope_items on scope values whose '<' answers or raises per pair, update thread as an Owicki-Gries proof (ghost version, _stale protected by _lock); bounded enumeration of console / HTML / IPython renders",
+        text="Proved: legal notifications keep State well formed and raise nothing; the weighted elapsed times grow by exactly the elapsed time while something runs and the attribution clock advances with every notification; sorting is total for merely hashable+equatable scope values whatever '<' does between two of them; _stale is only touched under _lock, the snapshot is rendered under the lock, and the update thread's last rendering reflects the final state. BOUNDED: console / HTML / IPython _render on all small states.",
+        note='Floating point treated as real arithmetic (T15). The rendering functions themselves (string formatting, ipywidgets) are only covered by the bounded enumeration.',
     ),
 }
